@@ -90,10 +90,11 @@ type Call struct {
 	MustReject                                   bool   // the client has to refuse this call before anything is sent (C07)
 	View                                         string // the request as the first filter saw it (after de-tunnelling)
 	thresholdSel, threshold, queryLen, damageSel int
-	wantStatus                                   int  // a deliberately damaged request must be answered with this status
-	wantDupReject                                bool // duplicate keys: the client must refuse before sending
-	byzClient                                    bool // the request was rewritten to carry a value at an excluded path
-	superset                                     bool // the (Byzantine) server mentioned a key that was never requested
+	wantStatus                                   int    // a deliberately damaged request must be answered with this status
+	wantDupReject                                bool   // duplicate keys: the client must refuse before sending
+	byzClient                                    bool   // the request was rewritten to carry a value at an excluded path
+	superset                                     bool   // the (Byzantine) server mentioned a key that was never requested
+	collidingStranger                            string // key part of a never-requested complex key whose hash equals a requested key's
 }
 
 //go:norace
